@@ -97,8 +97,7 @@ def render_case(case):
         table.add_rows(texts)
 
     def state():
-        rows = ([list(table._header_row)] if table._header_row else []) + [list(r) for r in table._rows]
-        return [[to_codes(c) for c in r] for r in rows]
+        return table_state(table)
 
     before = state()
     try:
@@ -124,7 +123,87 @@ def render_case(case):
         "after": after,
         "obs": obs,
         "runA": bool(case.get("runA", False)),
+        "op": "render",
+        "fromObj": False,
+        "row": [],
+        "rws": [],
+        "idx": 0,
     }
+
+
+# ------------------------------------------------------------------------------------------- one Table object, many calls
+def table_state(table):
+    rows = ([list(table._header_row)] if table._header_row else []) + [list(r) for r in table._rows]
+    return [[to_codes(c) for c in r] for r in rows]
+
+
+def run_object(case):
+    """case: {"kind": "object", "style", "ind", "ansi", "ops": [{op,row,rws,idx,w}]}: performs the calls on ONE real
+    Table and returns one event per call (the rows/header the table should have are the trace module's business)"""
+    from clikit.formatter import AnsiFormatter
+    from clikit.io import BufferedIO
+    from clikit.ui.components import Table
+    from clikit.ui.rectangle import Rectangle
+    from clikit.ui.style import TableStyle
+
+    table = Table(getattr(TableStyle, case["style"])())
+    evs = []
+    for op in case["ops"]:
+        ev = {"n": 0, "hdr": False, "rows": [], "style": case["style"], "T": 0, "ind": case["ind"], "al": [], "tagged": [],
+              "runA": False, "op": op["op"], "fromObj": True, "row": op.get("row", []), "rws": op.get("rws", []),
+              "idx": op.get("idx", 0)}
+        ev["before"] = table_state(table)
+        lines = []
+        try:
+            if op["op"] == "set_header":
+                table.set_header_row([to_text(c) for c in op["row"]])
+            elif op["op"] == "add_row":
+                table.add_row([to_text(c) for c in op["row"]])
+            elif op["op"] == "set_row":
+                table.set_row(op["idx"], [to_text(c) for c in op["row"]])
+            elif op["op"] == "set_rows":
+                table.set_rows([[to_text(c) for c in r] for r in op["rws"]])
+            else:
+                n = table._nb_columns or 1
+                ev["al"] = [0] * n
+                ev["T"] = 80 if op.get("w") == "wide" else case["ind"] + geometry(case["style"], n) + n + case.get("slack", 6)
+                ev["runA"] = True
+                io = BufferedIO(formatter=AnsiFormatter(forced=True) if case.get("ansi") else None)
+                io.set_terminal_dimensions(Rectangle(ev["T"], 50))
+                table.render(io, case["ind"])
+                lines = io.fetch_output().split("\n")
+                if lines and lines[-1] == "":
+                    lines.pop()
+            ev["obs"] = {"kind": "ok", "cls": "", "lines": [to_codes(_SGR.sub("", ln)) for ln in lines]}
+        except Exception as e:  # noqa: every exception kind is an observation
+            ev["obs"] = {"kind": "exc", "cls": type(e).__name__, "lines": []}
+        ev["after"] = table_state(table)
+        evs.append(ev)
+    return evs
+
+
+def random_object_case(rng):
+    n = rng.randint(1, 3)
+    style = rng.choice(["ascii", "solid", "borderless", "compact"])
+    items = []
+    for it in range(6):  # palette of rows; a few of the wrong length
+        m = n if rng.random() < 0.85 else rng.choice([x for x in (1, 2, 3, 4) if x != n])
+        items.append([random_cell(rng, it * 4 + k + 1, rng.choice(["short", "short", "medium", "word", "empty"])) for k in range(m)])
+    ops = []
+    for _ in range(rng.randint(3, 12)):
+        r = rng.random()
+        if r < 0.3:
+            ops.append({"op": "render", "w": rng.choice(["narrow", "narrow", "wide"])})
+        elif r < 0.5:
+            ops.append({"op": "set_header", "row": rng.choice(items)})
+        elif r < 0.75:
+            ops.append({"op": "add_row", "row": rng.choice(items)})
+        elif r < 0.9:
+            ops.append({"op": "set_row", "idx": rng.choice([0, 0, 1, 2, -1, 7]), "row": rng.choice(items)})
+        else:
+            ops.append({"op": "set_rows", "rws": [rng.choice(items) for _ in range(rng.randint(0, 3))]})
+    ops.append({"op": "render", "w": "narrow"})
+    return {"kind": "object", "style": style, "ind": rng.choice([0, 0, 2, 5]), "ansi": rng.random() < 0.5, "slack": rng.randint(0, 12), "ops": ops}
 
 
 def case_of(rec, ansi=False, tagged=(), runA=True):
@@ -187,7 +266,13 @@ def random_case(rng, big):
         rows.append(row)
     al = [rng.choice([0, 0, 1, 2]) for _ in range(n)]
     tagged = []
-    if rng.random() < 0.12:
+    dup = rng.random() < 0.3
+    if dup:  # values repeated in other rows / columns (identical text, hence the same class of characters)
+        for _ in range(rng.randint(1, 4)):
+            r1, k1, r2, k2 = rng.randrange(len(rows)), rng.randrange(n), rng.randrange(len(rows)), rng.randrange(n)
+            if any(rows[r1][k1]):
+                rows[r2][k2] = list(rows[r1][k1])
+    if not dup and rng.random() < 0.12:
         cand = [r * n + k + 1 for r in range(len(rows)) for k in range(n) if any(rows[r][k])]
         if cand:
             tagged = sorted(set(rng.choice(cand) for _ in range(rng.randint(1, 3))))
@@ -200,13 +285,14 @@ def random_case(rng, big):
 def wrapped(ev):
     """more row lines than rows: some cell was wrapped (used for the non-trivial count only)"""
     body = [ln for ln in ev["obs"]["lines"] if any(c >= 100 or c == 2 for c in ln)]
-    return len(body) > len(ev["rows"])
+    return len(body) > len(ev["before"]) > 0
 
 
 FAMILIES = {
-    "quick": [("fit", "MC_TableLayout_quick_fit.cfg"), ("draw", "MC_TableLayout_quick_draw.cfg")],
+    "quick": [("fit", "MC_TableLayout_quick_fit.cfg"), ("draw", "MC_TableLayout_quick_draw.cfg"),
+              ("dup", "MC_TableLayout_quick_dup.cfg")],
     "thorough": [("fit", "MC_TableLayout_thorough_fit.cfg"), ("draw", "MC_TableLayout_thorough_draw.cfg"),
-                 ("three", "MC_TableLayout_thorough_three.cfg")],
+                 ("three", "MC_TableLayout_thorough_three.cfg"), ("dup", "MC_TableLayout_thorough_dup.cfg")],
 }
 
 
@@ -218,7 +304,11 @@ def run(ctx):
         "Table.render, checks the P-invariants on the drawn text and emits each behaviour; every behaviour is replayed "
         "on the real Table.render (plain and ANSI, ascii boxes also as solid) and the written text compared; seeded random "
         "tables up to 6x6 / 1500 characters per cell / widths 20-200 / indentation 0-8 / tagged words are validated by "
-        "TableLayoutTrace.  Non-trivial: at least one cell had to be wrapped"
+        "TableLayoutTrace; a family and 30% of the random tables repeat values across rows and columns (identical text); every "
+        "sequence of 4 calls (add_row / set_row / set_rows / set_header_row / render, incl. rejected ones) on ONE Table object "
+        "(TableObject model) and random sequences up to 13 calls are replayed on a real Table and every render is judged against "
+        "the rows and header the model has at that moment.  Non-trivial: at least one cell had to be wrapped, or a history "
+        "with two renders"
     )
     ctx.assumptions += [
         "precondition: terminal width - indentation - rules - padding >= number of columns (at least one character per column)",
@@ -288,7 +378,7 @@ def run(ctx):
 
     # ---- code -> spec: seeded random tables, larger than TLC enumerates
     traces, cases = [], []
-    nrand = 400 if quick else 4000
+    nrand = 300 if quick else 4000
     for j in range(nrand):
         case = random_case(ctx.rng, big=(j % (8 if quick else 4) == 0))
         ev = render_case(case)
@@ -300,15 +390,51 @@ def run(ctx):
     for ev, case in mism + samples:
         traces.append([ev])
         cases.append(case)
+    # ---- histories on one Table object: every operation sequence of the TableObject model, then random ones
+    r = ctx.model(SPEC, "MC_TableObject", "MC_TableObject_%s.cfg" % ctx.tier, name="object-all-sequences", workers=8)
+    seqs = T.emitted(r)
+    if len(seqs) < 1000:
+        raise T.MachineryError("MC_TableObject emitted only %d sequences" % len(seqs))
+    if not quick:
+        r = ctx.model(SPEC, "MC_TableObject", "MC_TableObject_sim.cfg", name="object-simulate", simulate="num=60", depth=10,
+                      workers=1, seed=ctx.seed % 100000)
+        seqs += T.emitted(r)
+    styles = ["ascii", "borderless", "solid", "compact"]
+    nobj = 0
+    for b in seqs:
+        h = zlib.crc32(json.dumps(b).encode())
+        ocase = {"kind": "object", "style": styles[h % 4], "ind": [0, 3][(h // 4) % 2], "ansi": (h // 8) % 2 == 0, "slack": 6,
+                 "ops": [{"op": o["op"], "row": o["row"], "rws": o["rws"], "idx": o["idx"], "w": o["w"]} for o in b]}
+        traces.append(run_object(ocase))
+        cases.append(ocase)
+        nobj += 1
+    for _ in range(150 if quick else 3000):
+        ocase = random_object_case(ctx.rng)
+        traces.append(run_object(ocase))
+        cases.append(ocase)
+        nobj += 1
+    for tr in traces[-nobj:]:
+        ctx.count()
+        if sum(1 for e in tr if e["op"] == "render") >= 2 or any(wrapped(e) for e in tr):
+            ctx.nontrivial_n += 1
+    ctx.extra["object_histories_replayed"] = nobj
+    ctx.sample({"object_history": [{"op": o["op"], "idx": o.get("idx", 0), "w": o.get("w", "")} for o in cases[-1]["ops"]]})
     ctx.sample({"random_table": {k: cases[0][k] for k in ("n", "hdr", "style", "T", "ind", "al")},
                 "lines": ["".join(" -|+=????#"[c] if c < 10 else "x" for c in ln) for ln in traces[0][0]["obs"]["lines"][:8]]})
-    for part_t, part_c in zip(chunks(traces, 1500), chunks(cases, 1500)):
-        ctx.validate(SPEC, "TableLayoutTrace", "TableLayoutTrace.cfg", part_t, cases=part_c, name="recorded-renders")
+    for part_t, part_c in zip(chunks(traces, 3000), chunks(cases, 3000)):
+        ctx.validate(SPEC, "TableLayoutTrace", "TableLayoutTrace.cfg", part_t, cases=part_c, name="recorded-calls")
 
 
 def replay(ctx, path):
     d = json.load(open(path))
     case = d.get("case") or {}
+    if case.get("kind") == "object":
+        ctx.count()
+        ctx.nontriv("replay")
+        ctx.nontriv("replay2")
+        ctx.sample({"style": case["style"], "ops": [o["op"] for o in case["ops"]]})
+        ctx.validate(SPEC, "TableLayoutTrace", "TableLayoutTrace.cfg", [run_object(case)], cases=[case], name="replay")
+        return
     ev = render_case(case)
     ctx.count()
     ctx.nontriv("replay")
